@@ -588,11 +588,13 @@ impl Check for C11 {
     }
 
     fn rule(&self) -> String {
-        "Per episode one compound datagram of 1-8 members (stacked packets from real builders / foreign encoder, or the real CompoundBuilder); around it: every truncation length, extensions by 1-3 bytes, by 4 zero bytes, by a small RR, by itself and by another compound (coalescing); for every tile: length field in {0, L+-1, L+-2, rest, rest+-1, 0xffff}, version in {0,1,3}, packet type := every other known type, padding bit with zero count, count := 31; plus 24 seeded double faults; and, in the first 4096 episodes of a run, an exhaustive sweep of the 16-bit length field of one tile (all 65536 values, tile alone / behind / in front of a small packet, real size = announced -4/-1/0/+1/+3/+4). Each delivery: Compound::parse vs. the reference tiler, then tape-driven reader histories (next() x items+0..5 extra, two interleaved iterators, re-parse and resume after partial iteration, and a mix of next / nth / skip / step_by / size_hint / count / last / for_each through by_ref() and by value) vs. Packet::parse per reference tile. evaluations = deliveries. Non-trivial = a fault fired and the delivery is at least 4 bytes; distinct = distinct (accepted?, reference tile count, index of first failing tile, fault-kind sequence, length in words).".into()
+        "Per episode one compound datagram of 1-8 members (stacked packets from real builders / foreign encoder, or the real CompoundBuilder); around it: every truncation length, extensions by 1-3 bytes, by 4 zero bytes, by a small RR, by itself and by another compound (coalescing); for every tile: length field in {0, L+-1, L+-2, rest, rest+-1, 0xffff}, version in {0,1,3}, packet type := every other known type, padding bit with zero count, count := 31; plus 24 seeded double faults; once per run a valid chain of 2^20 header-only packets (and the same cut inside its last header); and, in the first 4096 episodes of a run, an exhaustive sweep of the 16-bit length field of one tile (all 65536 values, tile alone / behind / in front of a small packet, real size = announced -4/-1/0/+1/+3/+4). Each delivery: Compound::parse vs. the reference tiler, then tape-driven reader histories (next() x items+0..5 extra, two interleaved iterators, re-parse and resume after partial iteration, and a mix of next / nth / skip / step_by / size_hint / count / last / for_each through by_ref() and by value) vs. Packet::parse per reference tile. evaluations = deliveries. Non-trivial = a fault fired and the delivery is at least 4 bytes; distinct = distinct (accepted?, reference tile count, index of first failing tile, fault-kind sequence, length in words).".into()
     }
     fn assumptions(&self) -> Vec<String> {
         vec![
             "exhaustive in the single-fault dimension per base compound, sampled in bases, double faults and reader histories".into(),
+            "deliveries are parsed in place in one reusable receive buffer per worker, over the previous delivery; a reported case carries that previous content and a replay starts from a fixed call history".into(),
+            "a call that never returns or takes the process down is reported as a violation (nothing was decided / yielded); after the run, ./check delivers 2^20-packet chains to an unoptimised (dev profile) build as well".into(),
             "per-tile oracle is Packet::parse on the reference tile, because the property defines iteration in terms of it; items are compared through their Debug rendering (Packet has no PartialEq)".into(),
             "an unwind of Compound::parse itself (it decided nothing), or of the iterator when Packet::parse returns normally on every tile, is a violation here (it did not accept / did not yield); any other unwind is C01's finding and is counted as inconclusive".into(),
         ]
